@@ -25,9 +25,16 @@ def _tt(t):
 def gen(rng, i, tier):
     name = rng.choice(["arith", "lists", "lists"])
     spec = G.DSLS[name]
-    nargs = rng.randint(1, 2)
-    var_types = [rng.choice(["int", ("list", "int")] if name == "lists" else ["int"]) for _ in range(nargs)]
+    nargs = rng.choice([1, 1, 2, 2, 3, 4])
+    var_types = [rng.choice(["int", "int", ("list", "int")] if name == "lists" else ["int"]) for _ in range(nargs)]
     inputs = [[G.random_value(rng, t) for t in var_types] for _ in range(rng.randint(1, 3))]
+    if nargs >= 3 and all(t == "int" for t in var_types) and rng.random() < 0.7:
+        # inputs that are rearrangements of each other: equal on some sub-sets of the arguments
+        base = rng.sample([0, 1, 2, 3, 5, 7, 9, -1], nargs)
+        inputs = [base]
+        for _ in range(rng.randint(1, 3)):
+            k = rng.randrange(1, nargs)
+            inputs.append(inputs[-1][k:] + inputs[-1][:k] if rng.random() < 0.6 else rng.sample(base, nargs))
     rtypes = ["int"] if name == "arith" else ["int", ("list", "int"), ("list", ("list", "int"))]
     pool = []
     for _ in range(rng.randint(2, 6)):
@@ -38,6 +45,19 @@ def gen(rng, i, tier):
         pool.append(t)
         for s in rng.sample(subs, min(len(subs), rng.randint(0, 3))):
             pool.append(s)
+    if name == "lists" and rng.random() < 0.35:
+        # constants whose values differ but print alike / compare alike: each must keep its own value
+        # (values that are == AND print alike, e.g. 0.5 and Decimal("0.5"), are the same Constant: not used)
+        fam = rng.choice([[("int", "12"), ("str", "12")], [("int", "-3"), ("str", "-3")], [("int", "7"), ("str", "7"), ("int", "8")]])
+        for tag, txt in fam:
+            k = ("K", tag, txt)
+            shape = rng.randrange(3)
+            if shape == 0:
+                pool.append(("A", ("P", "cons"), [k, ("P", "nil")]))
+            elif shape == 1:
+                pool.append(("A", ("P", "head"), [("A", ("P", "cons"), [k, ("P", "nil")])]))
+            else:
+                pool.append(("A", ("P", "len"), [("A", ("P", "cons"), [k, ("A", ("P", "cons"), [("P", "1"), ("P", "nil")])])]))
     if not pool:
         pool = [("P", "1")]
     ops = []
@@ -63,6 +83,8 @@ def wire_term(t):
         return [Sym("P"), t[1]]
     if t[0] == "V":
         return [Sym("V"), t[1]]
+    if t[0] == "K":
+        return [Sym("K"), "int" if t[1] == "int" else t[1], t[2]]
     return [Sym("A"), wire_term(t[1])] + [wire_term(a) for a in t[2]]
 
 
@@ -162,7 +184,11 @@ def check(case, M):
             failed_before.add((G.term_str(pool[pi]), ii))
         for s in subs:
             seen.add((G.term_str(s), ii))
-    tags = [f"dsl.{case['dsl']}", f"skips{len(skips)}"]
+    tags = [f"dsl.{case['dsl']}", f"skips{len(skips)}", f"args{len(var_types)}"]
+    if any(s[0] == "K" for t in pool for s in G.subterms(t)):
+        tags.append("constants-printing-alike")
+    if len(case["inputs"]) > 1 and len({tuple(sorted(map(str, i))) for i in case["inputs"]}) == 1:
+        tags.append("inputs-are-rearrangements")
     if hit:
         tags.append("cache-hit")
     if reuse_fail:
